@@ -1,7 +1,7 @@
 (* C19: proofs about the model fragments REGENERATED from analyzer/analyzer.go on this run (Gen_Adapter.v). *)
 From Coq Require Import List ZArith Lia Bool.
 From RG.Base Require Import Outcome GoSlice.
-From RG.Adapter Require Import Str Model Conc NewEngine Alias.
+From RG.Adapter Require Import Str Model Conc NewEngine Alias Pool.
 From RGW Require Import Gen_Adapter.
 Import ListNotations.
 Local Open Scope Z_scope.
@@ -157,3 +157,13 @@ Lemma gen_text_edits_stable m0 ps :
   Forall (produced_by gen_replacement_sites) ps ->
   read_late (al_run gen_adapter_keeps m0 ps) = reported (al_run gen_adapter_keeps m0 ps).
 Proof. apply texts_stable_sites; [exact gen_replacement_sites_nonempty|exact gen_texts_condition]. Qed.
+
+(* ---- the pool of runner states: taken before the files are run, given back by a deferred Put, used nowhere else *)
+Lemma gen_pool_discipline :
+  discipline_of gen_pool_block = PutAtEnd /\ gen_pool_block_before_run_loop = true /\ gen_pool_stray_uses = [].
+Proof. repeat split; vm_compute; reflexivity. Qed.
+
+Lemma gen_states_exclusive evs :
+  let s := prun (discipline_of gen_pool_block) evs in
+  NoDup (held s) /\ (forall st, In st (held s) -> ~ In st (ps_pool s)).
+Proof. apply block_keeps_states_exclusive. exact (proj1 gen_pool_discipline). Qed.
